@@ -16,7 +16,7 @@ pub fn prop() -> Prop {
         rule: "complete enumeration (no repetition) of: position-coded buffers of every length 0..=64 x first-byte/ethertype \
                variants; all 65536 ethertypes; all 65536 tag-control values; nested tags; 16 version nibbles x lengths 0..=44; \
                every address byte x 8 values. Each case runs the real Frame::parse/Packet::parse under panic capture and is \
-               compared with an independent reference. non-trivial = the real dissector returned Ok (an address pair was compared)",
+               compared with an independent reference; priority bits of a tag must not change the result. non-trivial = the real dissector returned Ok (an address pair was compared)",
         run,
         replay,
     }
